@@ -50,6 +50,10 @@ CHECKS = {
    text='Representation.load executed on a symbolic parsed-file layout (symbolic box sizes, sample durations, first sequence number and decode time), SegmentList tiling, VOD $Number$/$Time$ addressing through the real handler kernel with symbolic startNumber and requested number, and the mediaPresentationDuration text round trip with a symbolic media duration',
    note='indexing: 2..4 fragments (quick), optional sidx/free tail boxes, three tfdt modes; VOD addressing on the layout catalogue; moov is the parsed moov of a fixture; bitrate/frame-rate quotients are over-approximated (not part of the obligations)',
    ref='DESIGN.md 5 C06'),
+ 'C07': dict(
+   text='for every registered DashOption (read from the repository at run time): value -> to_string -> query decoding -> from_string, and the whole forwarding pipeline (generate_cgi_parameters per media type, dict_to_cgi_params, query decoding, calculate_options) on symbolic values: integers, booleans, forked enumerations, calendar instants with symbolic offset as token text, free text as symbolic characters through a urllib.parse model',
+   note='query decoding = parse_qsl semantics; free text 1..2 ASCII characters (quick); options whose usage excludes a media type must be absent from that URL; two known findings (double URL-decoding of licence URLs, unquoted free-text options) are region-labelled',
+   ref='DESIGN.md 5 C07'),
  'C08': dict(
    text='DashTiming executed on a fully symbolic calendar instant (year..microsecond are solver variables, calendar arithmetic relational), symbolic depth and explicit start; coherence obligations as SMT validity queries on every path; monotonicity by a one-day-window induction step',
    note='now in 1971..2200 UTC; minimumUpdatePeriod from a concrete catalogue (it divides a symbolic value); reference (segment_duration, timescale) from the layout catalogue; float total_seconds() modelled as exact rational with error bound',
